@@ -211,6 +211,7 @@ pub fn catalogue() -> Vec<Decl> {
     cows(&mut out);
     byte_vecs(&mut out);
     capture_and_names(&mut out);
+    stateful_defaults(&mut out);
     out
 }
 
@@ -1414,6 +1415,75 @@ fn capture_and_names(out: &mut Vec<Decl>) {
             }
         }
     }
+}
+
+/// `default = next_default()`: a default expression whose value differs from call to call (a counter, a
+/// configuration read): every call of `Default::default()` - not only the first - runs the guards
+fn stateful_defaults(out: &mut Vec<Decl>) {
+    let mk = |inner: Inner, vals: Vec<ValSpec>, body: &str, derives: &[Tr]| {
+        let mut d = std(Decl::new(inner), vals).tag("stateful-default");
+        d.default = Some(DefaultSpec { macro_text: "next_default()".into(), neutral_text: body.into(), class: "stateful".into() });
+        with_derives(d, derives)
+    };
+    let num = [Tr::Debug, Tr::Clone, Tr::Copy, Tr::PartialEq, Tr::Eq, Tr::PartialOrd, Tr::Ord, Tr::Default, Tr::TryFrom];
+    for t in [IntTy::I32, IntTy::U8] {
+        let body = if t.signed() { "[10, 120, 11, -120, 12, 101][i % 6]" } else { "[10, 120, 11, 200, 12, 101][i % 6]" };
+        out.push(mk(Inner::Int(t), vec![ValSpec::GreaterEq(lit_i(0)), ValSpec::LessEq(lit_i(100))], body, &num));
+    }
+    for inner in [Inner::F32, Inner::F64] {
+        let ty = inner.ty();
+        let body = format!("[1.5, {ty}::NAN, 2.5, {ty}::INFINITY, 3.5, -1.0][i % 6]");
+        out.push(mk(inner, vec![ValSpec::Finite, ValSpec::GreaterEq(lit_f(0.0)), ValSpec::LessEq(lit_f(100.0))], &body, &num));
+        out.push(mk(inner, vec![ValSpec::GreaterEq(lit_f(0.0)), ValSpec::Finite], &body, &num));
+    }
+    let mut d = mk(Inner::Str, vec![ValSpec::NotEmpty, ValSpec::LenCharMax(lit_u(4))], "[\"ab\", \"\", \" cd \", \"   \", \"ef\", \"toolong\"][i % 6].to_string()", &[Tr::Debug, Tr::Clone, Tr::PartialEq, Tr::Default, Tr::TryFrom]);
+    d.sans = vec![SanSpec::Trim];
+    out.push(d);
+}
+
+/// Declarations whose *acceptance is not asserted*: `derive(Arbitrary)` next to things the macro documents it
+/// cannot generate for (a `with` sanitizer plus validation, `predicate`, `regex`, custom validation). The
+/// tree as received rejects every one of them; should a tree accept one, C09 holds it to its word (the
+/// generator must then produce valid values and not panic).
+pub fn c09_optional_decls() -> Vec<Decl> {
+    let mut out: Vec<Decl> = vec![];
+    let arb = [Tr::Debug, Tr::Arbitrary];
+    use SanSpec::*;
+    let w = |n: &str| With(f(n, FnForm::Closure));
+    for sans in [vec![Trim, w("s_appendx")], vec![w("s_appendx"), Trim], vec![Lower, w("s_trunc5")], vec![w("s_at2sp")], vec![Trim, Lower, w("s_prepz")], vec![Trim, w("s_padsp"), Upper]] {
+        for vals in [vec![ValSpec::NotEmpty, ValSpec::LenCharMax(lit_u(6))], vec![ValSpec::LenCharMin(lit_u(2)), ValSpec::LenCharMax(lit_u(8))]] {
+            let mut d = std(Decl::new(Inner::Str), vals).tag("optional-accept:string-with-sanitizer");
+            d.sans = sans.clone();
+            out.push(with_derives(d, &arb));
+        }
+    }
+    for inner in [Inner::F32, Inner::F64] {
+        for sn in ["s_clamp", "s_add1", "s_neg"] {
+            let mut d = std(Decl::new(inner), vec![ValSpec::GreaterEq(lit_f(0.0)), ValSpec::LessEq(lit_f(50.0))]).tag("optional-accept:float-with-sanitizer");
+            d.sans = vec![w(sn)];
+            out.push(with_derives(d, &arb));
+        }
+        let d = std(Decl::new(inner), vec![ValSpec::Less(lit_f(60.0)), ValSpec::Predicate(f("p_not50", FnForm::Closure))]).tag("optional-accept:float-predicate");
+        out.push(with_derives(d, &arb));
+        let mut d = Decl::new(inner).tag("optional-accept:float-custom");
+        d.vals = Vals::Custom(f("v_small", FnForm::Path));
+        out.push(with_derives(d, &arb));
+    }
+    for t in [IntTy::I32, IntTy::U8] {
+        let d = std(Decl::new(Inner::Int(t)), vec![ValSpec::LessEq(lit_i(100)), ValSpec::Predicate(f("p_even", FnForm::Closure))]).tag("optional-accept:int-predicate");
+        out.push(with_derives(d, &arb));
+        let mut d = Decl::new(Inner::Int(t)).tag("optional-accept:int-custom");
+        d.vals = Vals::Custom(f("v_small", FnForm::Path));
+        out.push(with_derives(d, &arb));
+    }
+    let d = std(Decl::new(Inner::Str), vec![ValSpec::Predicate(f("p_has_at", FnForm::Closure)), ValSpec::LenCharMax(lit_u(8))]).tag("optional-accept:string-predicate");
+    out.push(with_derives(d, &arb));
+    let d = std(Decl::new(Inner::Str), vec![ValSpec::Regex { pattern: "^[a-z]{2,4}$".into(), form: RegexForm::Literal }]).tag("optional-accept:string-regex");
+    out.push(with_derives(d, &arb));
+    let mut d = Decl::new(Inner::Str).tag("optional-accept:string-custom");
+    d.vals = Vals::Custom(f("v_nobang", FnForm::Path));
+    out.push(with_derives(d, &arb));
+    finalize(out, "o")
 }
 
 /// byte buffers `Vec<u8>`
